@@ -151,7 +151,7 @@ def check_mvdr(run, A):
 
             def base_param(x):
                 x = strip_views(x)
-                while x.op in ('mu', 'gamma') or newaxis_insertions(x) is not None or only_adds_axes(x) is not None or is_call_to(x, 'numpy.reshape', 'numpy.broadcast_to'):
+                while x.op in ('mu', 'gamma') or newaxis_insertions(x) is not None or only_adds_axes(x) is not None or is_call_to(x, 'numpy.reshape', 'numpy.broadcast_to', 'numpy.expand_dims'):
                     if only_adds_axes(x) is not None and newaxis_insertions(x) is None:
                         x = strip_views(only_adds_axes(x))
                         continue
